@@ -148,10 +148,25 @@ impl Default for ProgCfg {
 }
 
 fn pick_slot(t: &mut Tape, n: usize) -> usize {
-    // prefer recent slots: two draws, keep the later one (index from the end)
+    // half of the time one of the two most recent slots, otherwise any slot
     debug_assert!(n > 0);
-    let back = t.choose(n).min(t.choose(n + 1).min(n - 1));
+    let back = if t.flag() { t.choose(n) } else { t.choose(2.min(n)) };
     n - 1 - back
+}
+
+/// second operand of a binary constructor: usually different from the first
+fn pick_other(t: &mut Tape, n: usize, first: usize) -> usize {
+    let b = pick_slot(t, n);
+    if b == first && n > 1 && t.bool_p(200) {
+        let c = t.choose(n - 1);
+        if c >= first {
+            c + 1
+        } else {
+            c
+        }
+    } else {
+        b
+    }
 }
 
 fn pick_slots(t: &mut Tape, n: usize, max_len: usize) -> Vec<usize> {
@@ -203,7 +218,7 @@ impl Prog {
         Prog { atoms, ins }
     }
 
-    fn decode_leaf(t: &mut Tape, atoms: &Atoms) -> Ins {
+    pub fn decode_leaf(t: &mut Tape, atoms: &Atoms) -> Ins {
         match t.weighted(&[6, 6, 3, 4, 2, 1, 1, 1, 1, 2]) {
             0 => Ins::Char(atoms.pick_landmark(t)),
             1 => {
@@ -241,7 +256,7 @@ impl Prog {
         }
     }
 
-    fn decode_ins(t: &mut Tape, atoms: &Atoms, cfg: &ProgCfg, big: bool, n: usize) -> Ins {
+    pub fn decode_ins(t: &mut Tape, atoms: &Atoms, cfg: &ProgCfg, big: bool, n: usize) -> Ins {
         if n == 0 {
             return Self::decode_leaf(t, atoms);
         }
@@ -252,14 +267,14 @@ impl Prog {
         let a = pick_slot(t, n);
         match op {
             0 => Self::decode_leaf(t, atoms),
-            1 => Ins::Concat(a, pick_slot(t, n)),
+            1 => Ins::Concat(a, pick_other(t, n, a)),
             2 => Ins::ConcatList(pick_slots(t, n, 4)),
-            3 => Ins::Union(a, pick_slot(t, n)),
+            3 => Ins::Union(a, pick_other(t, n, a)),
             4 => Ins::UnionList(pick_slots(t, n, 4)),
-            5 => Ins::Inter(a, pick_slot(t, n)),
+            5 => Ins::Inter(a, pick_other(t, n, a)),
             6 => Ins::InterList(pick_slots(t, n, 3)),
             7 => Ins::Complement(a),
-            8 => Ins::Diff(a, pick_slot(t, n)),
+            8 => Ins::Diff(a, pick_other(t, n, a)),
             9 => Ins::DiffList(a, pick_slots(t, n, 3)),
             10 => Ins::Star(a),
             11 => Ins::Plus(a),
@@ -330,7 +345,7 @@ impl Prog {
         Ok(out)
     }
 
-    fn dfa_of(&self, ins: &Ins, out: &[Dfa], k: usize) -> Result<Dfa, TooBig> {
+    pub fn dfa_of(&self, ins: &Ins, out: &[Dfa], k: usize) -> Result<Dfa, TooBig> {
         use Ins::*;
         let all: Vec<usize> = (0..k).collect();
         Ok(match ins {
